@@ -1410,3 +1410,134 @@ func c15R9(c *Ctx, r *Report) {
 	r.Check(hasDbl, rule, norm.Name(), "collapses repeated slashes until none is left", c.pos(norm.Decl.Pos()), "a//b and a/b name different modules")
 	r.Check(hasDot, rule, norm.Name(), "drops '.' segments", c.pos(norm.Decl.Pos()), "`dot/./leaf` and `dot/leaf` load the same file as two modules, which is then processed twice")
 }
+
+// ---- C01.R11 / R12: QBE emitter labels and stack slots ------------------------------------------------------
+
+func init() {
+	lateInits = append(lateInits, func() {
+		props["C01"].Quick = append(props["C01"].Quick, c01R11, c01R12)
+		props["C08"].Quick = append(props["C08"].Quick, c01R11, c01R12)
+		props["C01"].Explanation += " (R11) block labels the QBE emitter invents are numbered with a per-emission unique number (the temp counter or the instruction's result id), never with an operand's id. (R12) `alloc` instructions are produced only by emitAlloca (hoisted MIR allocas, entry block) and emitStackSlot, which defers slots requested outside the entry block to the entry block; emitFunction writes the deferred slots right after the entry label."
+	})
+}
+
+func c01R11(c *Ctx, r *Report) {
+	const rule = "C01.R11"
+	r.Describe(rule, "qbe: every fmt.Sprintf that builds an emitter-local label (\"<name>_%d\" / \"<name>_q%d\") is numbered with g.tempID or the Result of the instruction being emitted")
+	n := 0
+	for _, fn := range c.AllFns(pkgQBE) {
+		info := fn.Info()
+		for _, cl := range callsIn(fn.Decl.Body, true) {
+			f := callee(info, cl)
+			if f == nil || f.Pkg() == nil || f.Pkg().Path() != "fmt" || f.Name() != "Sprintf" || len(cl.Args) != 2 {
+				continue
+			}
+			v := constOf(info, cl.Args[0])
+			if v == nil || v.Kind() != constant.String {
+				continue
+			}
+			fs := constant.StringVal(v)
+			if !(strings.HasSuffix(fs, "_%d") || strings.HasSuffix(fs, "_q%d")) || strings.ContainsAny(fs, " $@%=") && strings.Count(fs, "%") != 1 || strings.ContainsAny(fs, " $@=") {
+				continue
+			}
+			n++
+			arg := ast.Unparen(cl.Args[1])
+			good := false
+			if sel, ok := arg.(*ast.SelectorExpr); ok && (sel.Sel.Name == "tempID" || sel.Sel.Name == "Result") {
+				good = true
+			}
+			r.Check(good, rule, fn.Name(), "label "+fs+" numbered by "+exprStr(arg), c.pos(cl.Pos()),
+				"the label is numbered with "+exprStr(arg)+", which is not unique per emission: two instructions with the same operand in one function define the same block twice and QBE rejects the program (`multiple definitions of block`)")
+		}
+	}
+	r.Floor(rule, n, 4, "emitter-local labels")
+}
+
+func c01R12(c *Ctx, r *Report) {
+	const rule = "C01.R12"
+	r.Describe(rule, "qbe: allocOp is called only by emitStackSlot; \"alloc4/8/16\" literals occur only in allocOp and emitAlloca; emitStackSlot emits in place only under g.inEntryBlock and otherwise appends to pendingAllocs; emitFunction writes pendingAllocs into the entry block")
+	allocOp := c.LookupFn(pkgQBE, "(*Generator).allocOp")
+	slot := c.LookupFn(pkgQBE, "(*Generator).emitStackSlot")
+	emitFn := c.LookupFn(pkgQBE, "(*Generator).emitFunction")
+	pend := c.fieldObj(pkgQBE, "Generator", "pendingAllocs")
+	inEntry := c.fieldObj(pkgQBE, "Generator", "inEntryBlock")
+	if !r.Anchor(rule, allocOp != nil && emitFn != nil, "qbe allocOp / emitFunction") {
+		return
+	}
+	n := 0
+	for _, fn := range c.AllFns(pkgQBE) {
+		info := fn.Info()
+		for _, cl := range callsIn(fn.Decl.Body, true) {
+			if isCallTo(info, cl, allocOp.Obj) {
+				n++
+				r.Check(slot != nil && fn.Obj == slot.Obj, rule, fn.Name(), "calls allocOp", c.pos(cl.Pos()),
+					"a stack slot is allocated where it is used: inside a loop every iteration takes new stack space until the function returns (a long loop that builds optionals or stores into dynamic arrays overflows the stack)")
+			}
+		}
+		ast.Inspect(fn.Decl.Body, func(x ast.Node) bool {
+			if bl, ok := x.(*ast.BasicLit); ok && bl.Kind == token.STRING {
+				if v := constOf(info, bl); v != nil && strings.Contains(constant.StringVal(v), "alloc") && !strings.Contains(constant.StringVal(v), "alloca") && !strings.Contains(constant.StringVal(v), "ferret_alloc") && !strings.Contains(constant.StringVal(v), " ") {
+					name := fn.Obj.Name()
+					r.Check(name == "allocOp" || name == "emitAlloca", rule, fn.Name(), "alloc opcode literal "+constant.StringVal(v), c.pos(bl.Pos()),
+						"an alloc instruction is spelled outside allocOp / emitAlloca and bypasses the entry-block placement")
+				}
+			}
+			return true
+		})
+	}
+	r.Floor(rule, n, 1, "allocOp call sites")
+	if slot == nil || pend == nil || inEntry == nil {
+		r.Fail(rule, "codegen/qbe_embeddings", "stack slots are deferred to the entry block", "-", "there is no emitStackSlot / pendingAllocs / inEntryBlock machinery: emitter temporaries are allocated in place")
+		return
+	}
+	// emitStackSlot shape
+	sinfo := slot.Info()
+	guarded, deferred := false, false
+	ast.Inspect(slot.Decl.Body, func(x ast.Node) bool {
+		if ifs, ok := x.(*ast.IfStmt); ok && fieldOf(sinfo, ifs.Cond) == inEntry {
+			for _, cl := range callsIn(ifs.Body, false) {
+				if f := callee(sinfo, cl); f != nil && f.Name() == "emitLine" {
+					guarded = true
+				}
+			}
+		}
+		if as, ok := x.(*ast.AssignStmt); ok && len(as.Lhs) == 1 && fieldOf(sinfo, as.Lhs[0]) == pend {
+			deferred = true
+		}
+		return true
+	})
+	// no emitLine outside the inEntryBlock branch
+	stray := false
+	walkWithStack(slot.Decl.Body, func(x ast.Node, stack []ast.Node) bool {
+		cl, ok := x.(*ast.CallExpr)
+		if !ok {
+			return true
+		}
+		if f := callee(sinfo, cl); f == nil || f.Name() != "emitLine" {
+			return true
+		}
+		under := false
+		for _, a := range stack {
+			if ifs, ok := a.(*ast.IfStmt); ok && fieldOf(sinfo, ifs.Cond) == inEntry && containsNode(ifs.Body, cl) {
+				under = true
+			}
+		}
+		if !under {
+			stray = true
+		}
+		return true
+	})
+	r.Check(guarded && deferred && !stray, rule, slot.Name(), "emits in place only in the entry block, defers otherwise", c.pos(slot.Decl.Pos()),
+		"emitStackSlot writes the alloc at the current position also outside the entry block")
+	// emitFunction flushes pendingAllocs
+	finfo := emitFn.Info()
+	flushed := false
+	ast.Inspect(emitFn.Decl.Body, func(x ast.Node) bool {
+		if rs, ok := x.(*ast.RangeStmt); ok && fieldOf(finfo, rs.X) == pend {
+			flushed = true
+		}
+		return true
+	})
+	r.Check(flushed, rule, emitFn.Name(), "deferred slots are written into the function", c.pos(emitFn.Decl.Pos()),
+		"slots deferred to the entry block are never emitted: their uses refer to undefined temporaries")
+}
